@@ -21,6 +21,8 @@ pub struct SinglePatternMatcher<K, P, I> {
     host_indexing: I,
     /// The bindings that must be present in the matches
     requested_bindings: HashSet<K>,
+    /// The same bindings, in an order in which they can be bound
+    requested_bindings_order: Vec<K>,
 }
 
 impl<P, D> PortMatcher<D>
@@ -60,20 +62,27 @@ impl<P, I: IndexingScheme> SinglePatternMatcher<Key<I>, P, I> {
         indexing: I,
     ) -> Result<Self, PT::Error> {
         let constraints = pattern.try_to_constraint_vec()?;
-        let requested_bindings = indexing
-            .all_missing_bindings(
-                constraints
-                    .iter()
-                    .flat_map(|c| c.required_bindings().iter())
-                    .copied(),
-                [],
-            )
-            .into_iter()
-            .collect();
+        // The keys of the constraints, plus the bindings that the pattern
+        // additionally requires (as `ManyMatcher` does)
+        let requested_bindings_order = indexing.all_missing_bindings(
+            pattern
+                .required_bindings()
+                .unwrap_or_default()
+                .into_iter()
+                .chain(
+                    constraints
+                        .iter()
+                        .flat_map(|c| c.required_bindings().iter())
+                        .copied(),
+                ),
+            [],
+        );
+        let requested_bindings = requested_bindings_order.iter().copied().collect();
         Ok(Self {
             constraints,
             host_indexing: indexing,
             requested_bindings,
+            requested_bindings_order,
         })
     }
 }
@@ -103,14 +112,23 @@ impl<K: IndexKey, P, I: IndexingScheme> SinglePatternMatcher<K, P, I> {
         let mut final_bindings = Vec::new();
         while let Some((constraints, mut bindings)) = candidates.pop_front() {
             let [constraint, remaining @ ..] = constraints else {
-                bindings.retain_keys(&self.requested_bindings);
-                if self
-                    .requested_bindings
+                // Bind the requested keys that no constraint has bound yet
+                let missing_keys = self
+                    .requested_bindings_order
                     .iter()
-                    .all(|k| bindings.get(k).is_some())
-                {
-                    // We have a complete match
-                    final_bindings.push(bindings);
+                    .copied()
+                    .filter(|k| bindings.get(k).is_none())
+                    .collect::<Vec<_>>();
+                for mut bindings in host.bind_all(bindings, missing_keys, false) {
+                    bindings.retain_keys(&self.requested_bindings);
+                    if self
+                        .requested_bindings
+                        .iter()
+                        .all(|k| bindings.get(k).is_some())
+                    {
+                        // We have a complete match
+                        final_bindings.push(bindings);
+                    }
                 }
                 continue;
             };
